@@ -20,9 +20,9 @@ META = {
     'bounds': {'quick': 'whole function: 2x2 rasters with every observer cell, symbolic elevations / observer_elev / target_elev (>= 0), non-square cells, exhaustive; whole function on 2x3 / 3x2 / 3x3 over a fixed terrain with one symbolic cell at every position for every observer, and two symbolic cells for 24 seeded (occluder, occluded) pairs of 2x3 / 3x2 (concrete observer / target offsets), exhaustive; '
                         'event generation: 3x3 and 2x4 rasters, every observer cell, symbolic elevations; status structure: 5 keys, every insert/delete history of <= 2 operations and a seeded set of '
                         'longer histories (<= 6 operations, deletions of two-children nodes included), symbolic gradients, query = brute force over the active nearer nodes',
-               'thorough': 'whole function 2x3 / 3x2 under a path budget (not exhaustive); status structure every history of <= 3 operations over 5 keys and <= 4 over 4 keys'},
+               'thorough': 'sparse whole-function jobs for every observer / cell and every occluding pair of 2x3, 3x2, 3x3 and 2x4; status structure every history of <= 3 operations over 5 keys, 400 longer histories, 600 deep trees'},
     'stubs': ['numba.jit = identity', 'atan Ackermannised (range, sign, strictly increasing, odd)'],
-    'outside': ['single-row / single-column rasters (the function derives the cell size from the coordinate span and divides by zero there)', 'whole-function runs beyond 2x3 (there the claim is the conjunction of the event-generation and status-structure harnesses)',
+    'outside': ['single-row / single-column rasters (the function derives the cell size from the coordinate span and divides by zero there)', 'fully symbolic whole-function runs beyond 2x2 (z3 unknown on 2x3 / 3x2; there the claim is the sparse whole-function jobs plus the event-generation and status-structure harnesses)',
                 'exact ties: bearings / gradients closer than 1e-9 to a span end or to the query gradient', 'NaN elevations', 'GPU (RTX) path', 'float rounding of gradients'],
     'assumptions': ['gradients are atan values, i.e. in (-pi/2, pi/2) (status-structure harness)', 'elevations finite'],
     'budget_s': {'quick': 280, 'thorough': 2400},
@@ -53,7 +53,9 @@ def _histories(L, keys):
 
 def jobs(tier, seed):
     out = []
-    for shp in [[2, 2]] + ([[2, 3], [3, 2]] if tier != "quick" else []):
+    # fully symbolic whole-function runs stop at 2x2: on 2x3 / 3x2 z3 answers unknown on path feasibility (measured: 3 of 12 jobs), which would make the
+    # run inconclusive; larger rasters are covered by the sparse jobs below
+    for shp in [[2, 2]]:
         for obs in cells(tuple(shp)):
             out.append({'name': 'viewshed-%dx%d-obs%d%d' % (shp[0], shp[1], obs[0], obs[1]), 'kind': 'whole', 'shape': shp, 'obs': list(obs)})
     # larger rasters, fixed terrain with one or two symbolic cells.  Pairs are restricted to (nearer cell whose angular span contains the farther cell's bearing, farther cell):
